@@ -4,7 +4,7 @@ import common
 
 LEAN_MODULES = ['OpusProps.C17']
 GEN = ['CeltTables', 'SilkIcdf']
-SOURCES = ['celt/cwrs.c', 'celt/celt.c', 'celt/modes.c', 'celt/celt_decoder.c', 'celt/celt_encoder.c', 'celt/cwrs.h', 'celt/laplace.c', 'celt/laplace.h', 'celt/quant_bands.c', 'celt/rate.c',
+SOURCES = ['celt/cwrs.c', 'celt/celt_encoder.c', 'celt/celt.c', 'celt/modes.c', 'celt/celt_decoder.c', 'celt/celt_encoder.c', 'celt/cwrs.h', 'celt/laplace.c', 'celt/laplace.h', 'celt/quant_bands.c', 'celt/rate.c',
            'celt/rate.h', 'celt/vq.c', 'celt/celt.h', 'celt/modes.c', 'celt/static_modes_float.h', 'celt/entcode.h',
            'silk/tables_LTP.c', 'silk/tables_NLSF_CB_NB_MB.c', 'silk/tables_NLSF_CB_WB.c', 'silk/tables_gain.c',
            'silk/tables_other.c', 'silk/tables_pitch_lag.c', 'silk/tables_pulses_per_block.c', 'silk/tables.h',
@@ -77,6 +77,10 @@ WRAP = ['-Wl,--wrap=ec_enc_icdf', '-Wl,--wrap=ec_dec_icdf', '-Wl,--wrap=clt_comp
         '-Wl,--wrap=ec_dec_bit_logp', '-Wl,--wrap=ec_enc_uint', '-Wl,--wrap=ec_dec_uint']
 
 
+WRAP_HDR = ['-Wl,--wrap=' + x for x in ('celt_encode_with_ec', 'quant_coarse_energy', 'clt_compute_allocation', 'ec_laplace_encode',
+                                          'ec_enc_bit_logp', 'ec_enc_uint', 'ec_enc_bits', 'ec_enc_icdf', 'ec_encode_bin', 'ec_enc_shrink')]
+
+
 def _harness(ctx, name, variant, **kw):
     """ctx.harness with a retry: the shared library cache (.cache/lib, pruned to the 8 newest trees) can lose a
     directory to a concurrent check of another property between build_lib and the compile."""
@@ -114,6 +118,9 @@ def ties(ctx):
     ha = _harness(ctx, 'c17_alloc', 'san')
     jobs.append(('alloc', [ha, 'tie', level, str(ctx.seed)]))
     jobs.append(('alloc-real-frames', [hsites, 'alloc', str(ctx.seed), '30' if ctx.quick else '200']))
+    hh = _harness(ctx, 'c17_hdrenc', 'plain', opt='-O1', extra=WRAP_HDR)
+    jobs.append(('hdrenc-real-frames', [hh, 'tie', str(ctx.seed), '25' if ctx.quick else '150']))
+    jobs.append(('hdrenc-coarse', [hh, 'coarse', str(ctx.seed), '20000' if ctx.quick else '200000']))
     with concurrent.futures.ThreadPoolExecutor(max_workers=5) as ex:   # shared machine: at most 5 harness|driver pipelines
         futs = [ex.submit(_run_tie, name, cmd, 6000) for name, cmd in jobs]
         out = [f.result() for f in futs]
